@@ -204,4 +204,148 @@ Section LRSound.
       intros HX. eapply reach_step with (p := edge X Y); [now apply Hedge|exact HX|now left]. }
     apply (Hreach C A Huc). constructor. now left.
   Qed.
+
+  (** * completeness: the checkers answer true whenever the semantic property holds *)
+  Lemma forallb_false_exists {A} (f : A -> bool) l : forallb f l = false -> exists x, In x l /\ f x = false.
+  Proof.
+    induction l as [|x l IH]; simpl; [discriminate|]. intros H. apply andb_false_iff in H.
+    destruct H as [H|H]; [exists x; auto|]. destruct (IH H) as (y & Hy & Hf). exists y. auto.
+  Qed.
+
+  Lemma nullstr_derives (u : list sym) : nullstr u -> derives G u [].
+  Proof. intros H. apply (proj2 (gen_derives G)) in H. exact H. Qed.
+
+  Lemma all_nullable_nullstr nl (u : list sym) : (forall A, In A nl <-> gen P (Nt A) []) ->
+    all_nullable neqb nl u = true -> nullstr u.
+  Proof. intros Hnl H. eapply all_nullable_gens; eauto. intros A HA. now apply Hnl. Qed.
+
+  Lemma step_prod p : In p P -> derivesN G 1 [Nt (head p)] (body p).
+  Proof.
+    intros Hp. econstructor; [|constructor].
+    pose proof (step_intro G [] [] p Hp) as H. simpl in H. now rewrite app_nil_r in H.
+  Qed.
+
+  Lemma LC_derives X Y : LC X Y -> exists γ n, derivesN G (S n) [Nt X] (Nt Y :: γ).
+  Proof.
+    intros (p & β & γ & Hp & Hh & Hb & Hβ). exists γ.
+    assert (Hd : derives G (body p) (Nt Y :: γ)).
+    { rewrite Hb. change (Nt Y :: γ) with ([] ++ Nt Y :: γ). apply derives_app; [now apply nullstr_derives|apply derives_refl]. }
+    apply derives_derivesN in Hd. destruct Hd as [n Hd]. exists n.
+    rewrite <- Hh. change (S n) with (1 + n). eapply derivesN_trans; [apply step_prod; auto|exact Hd].
+  Qed.
+
+  Lemma LCstar_derives X Y : clos_refl_trans N LC X Y -> exists γ, derives G [Nt X] (Nt Y :: γ).
+  Proof.
+    intros H. induction H as [X Y HLC|X|X Y Z _ [γ1 IH1] _ [γ2 IH2]].
+    - destruct (LC_derives X Y HLC) as (γ & n & Hd). exists γ. eapply derivesN_derives; eauto.
+    - exists []. apply derives_refl.
+    - exists (γ2 ++ γ1). eapply derives_trans; [exact IH1|].
+      change (Nt Y :: γ1) with ([Nt Y] ++ γ1). change (Nt Z :: γ2 ++ γ1) with ((Nt Z :: γ2) ++ γ1).
+      apply derives_app; [exact IH2|apply derives_refl].
+  Qed.
+
+  Lemma In_left_edges_inv nl A : forall (b : list sym) e, In e (left_edges_body neqb nl A b) ->
+    exists β D γ, b = β ++ Nt D :: γ /\ all_nullable neqb nl β = true /\ e = edge A D.
+  Proof.
+    induction b as [|[a|B] b IH]; simpl; intros e He; try destruct He.
+    - exists [], B, b. auto.
+    - destruct (mem_n neqb B nl) eqn:Em; [|destruct H].
+      destruct (IH e H) as (β & D & γ & -> & Hn & ->). exists (Nt B :: β), D, γ. simpl. rewrite Em, Hn. auto.
+  Qed.
+
+  Theorem no_left_recursion_complete :
+    (forall A α n, ~ derivesN G (S n) [Nt A] (Nt A :: α)) -> no_left_recursion neqb G = true.
+  Proof.
+    intros Hsem. unfold no_left_recursion. fold P.
+    destruct (nullable_total neqb neqb_spec P) as [nl Hn]. rewrite Hn.
+    destruct (nullable_spec neqb neqb_spec _ _ Hn) as [_ Hnl].
+    set (es := flat_map (fun p => left_edges_body neqb nl (head p) (body p)) P).
+    destruct (acyclic neqb es) eqn:Eac; auto. exfalso.
+    assert (Hes : forall e, In e es -> exists X Y, e = edge X Y /\ LC X Y).
+    { intros e He. apply in_flat_map in He. destruct He as (p & Hp & He).
+      apply In_left_edges_inv in He. destruct He as (β & D & γ & Hb & Hn' & ->).
+      exists (head p), D. split; auto. exists p, β, γ. repeat split; auto. eapply all_nullable_nullstr; eauto. }
+    unfold acyclic in Eac. apply forallb_false_exists in Eac. destruct Eac as (e & He & Hf).
+    destruct (Hes e He) as (X & Y & -> & HLC). simpl in Hf.
+    destruct (reach_total neqb neqb_spec es [Y]) as [r Hr].
+    { constructor; [intros []|constructor]. } { simpl; lia. }
+    rewrite Hr in Hf.
+    destruct (reach_spec neqb neqb_spec es [Y] r) as [_ Hspec]; auto.
+    { constructor; [intros []|constructor]. }
+    apply negb_false_iff in Hf. apply (mem_n_In neqb neqb_spec) in Hf. apply Hspec in Hf.
+    assert (Hpath : forall Z, reachable es [Y] Z -> clos_refl_trans N LC Y Z).
+    { intros Z HZ. induction HZ as [Z HZ|p Z Hp _ IH HZ].
+      - destruct HZ as [<-|[]]. apply rt_refl.
+      - destruct (Hes p Hp) as (X' & Y' & -> & HLC'). simpl in *. destruct HZ as [HZ|[]]. inversion HZ; subst.
+        eapply rt_trans; [exact IH|now apply rt_step]. }
+    destruct (LC_derives X Y HLC) as (γ0 & n & Hd0).
+    destruct (LCstar_derives Y X (Hpath X Hf)) as (γ1 & Hd1).
+    assert (Hd2 : derives G (Nt Y :: γ0) (Nt X :: γ1 ++ γ0)).
+    { change (Nt Y :: γ0) with ([Nt Y] ++ γ0). change (Nt X :: γ1 ++ γ0) with ((Nt X :: γ1) ++ γ0).
+      apply derives_app; [exact Hd1|apply derives_refl]. }
+    apply derives_derivesN in Hd2. destruct Hd2 as [m Hd2].
+    apply (Hsem X (γ1 ++ γ0) (n + m)). change (S (n + m)) with (S n + m). eapply derivesN_trans; eauto.
+  Qed.
+
+  Lemma UC_derives X Y : UC X Y -> exists n, derivesN G (S n) [Nt X] [Nt Y].
+  Proof.
+    intros (p & β & γ & Hp & Hh & Hb & Hβ & Hγ).
+    assert (Hd : derives G (body p) [Nt Y]).
+    { rewrite Hb. change [Nt Y] with ([] ++ [Nt Y] ++ (@nil sym)). change (Nt Y :: γ) with ([Nt Y] ++ γ).
+      apply derives_app; [now apply nullstr_derives|]. apply derives_app; [apply derives_refl|now apply nullstr_derives]. }
+    apply derives_derivesN in Hd. destruct Hd as [n Hd]. exists n.
+    rewrite <- Hh. change (S n) with (1 + n). eapply derivesN_trans; [apply step_prod; auto|exact Hd].
+  Qed.
+
+  Lemma UCstar_derives X Y : clos_refl_trans N UC X Y -> derives G [Nt X] [Nt Y].
+  Proof.
+    intros H. induction H as [X Y HUC|X|X Y Z _ IH1 _ IH2].
+    - destruct (UC_derives X Y HUC) as (n & Hd). eapply derivesN_derives; eauto.
+    - apply derives_refl.
+    - eapply derives_trans; eauto.
+  Qed.
+
+  Lemma In_unit_edges_inv nl A : forall (post pre : list sym) e, In e (unit_edges_body neqb nl A pre post) ->
+    exists β D γ, post = β ++ Nt D :: γ /\ all_nullable neqb nl (pre ++ β) = true /\
+                  all_nullable neqb nl γ = true /\ e = edge A D.
+  Proof.
+    induction post as [|s post IH]; simpl; intros pre e He; [destruct He|].
+    apply in_app_iff in He. destruct He as [He|He].
+    - destruct s as [a|B]; [destruct He|].
+      destruct (all_nullable neqb nl pre && all_nullable neqb nl post) eqn:E; [|destruct He].
+      destruct He as [<-|[]]. apply andb_true_iff in E. destruct E as [E1 E2].
+      exists [], B, post. rewrite app_nil_r. auto.
+    - destruct (IH _ _ He) as (β & D & γ & -> & H1 & H2 & ->). exists (s :: β), D, γ.
+      rewrite <- app_assoc in H1. simpl in H1. auto.
+  Qed.
+
+  Theorem no_cycle_complete : (forall A n, ~ derivesN G (S n) [Nt A] [Nt A]) -> no_cycle neqb G = true.
+  Proof.
+    intros Hsem. unfold no_cycle. fold P.
+    destruct (nullable_total neqb neqb_spec P) as [nl Hn]. rewrite Hn.
+    destruct (nullable_spec neqb neqb_spec _ _ Hn) as [_ Hnl].
+    set (es := flat_map (fun p => unit_edges_body neqb nl (head p) [] (body p)) P).
+    destruct (acyclic neqb es) eqn:Eac; auto. exfalso.
+    assert (Hes : forall e, In e es -> exists X Y, e = edge X Y /\ UC X Y).
+    { intros e He. apply in_flat_map in He. destruct He as (p & Hp & He).
+      apply In_unit_edges_inv in He. destruct He as (β & D & γ & Hb & Hn1 & Hn2 & ->). simpl in Hn1.
+      exists (head p), D. split; auto. exists p, β, γ. repeat split; auto; eapply all_nullable_nullstr; eauto. }
+    unfold acyclic in Eac. apply forallb_false_exists in Eac. destruct Eac as (e & He & Hf).
+    destruct (Hes e He) as (X & Y & -> & HUC). simpl in Hf.
+    destruct (reach_total neqb neqb_spec es [Y]) as [r Hr].
+    { constructor; [intros []|constructor]. } { simpl; lia. }
+    rewrite Hr in Hf.
+    destruct (reach_spec neqb neqb_spec es [Y] r) as [_ Hspec]; auto.
+    { constructor; [intros []|constructor]. }
+    apply negb_false_iff in Hf. apply (mem_n_In neqb neqb_spec) in Hf. apply Hspec in Hf.
+    assert (Hpath : forall Z, reachable es [Y] Z -> clos_refl_trans N UC Y Z).
+    { intros Z HZ. induction HZ as [Z HZ|p Z Hp _ IH HZ].
+      - destruct HZ as [<-|[]]. apply rt_refl.
+      - destruct (Hes p Hp) as (X' & Y' & -> & HUC'). simpl in *. destruct HZ as [HZ|[]]. inversion HZ; subst.
+        eapply rt_trans; [exact IH|now apply rt_step]. }
+    destruct (UC_derives X Y HUC) as (n & Hd0).
+    pose proof (UCstar_derives Y X (Hpath X Hf)) as Hd1.
+    apply derives_derivesN in Hd1. destruct Hd1 as [m Hd1].
+    apply (Hsem X (n + m)). change (S (n + m)) with (S n + m). eapply derivesN_trans; eauto.
+  Qed.
 End LRSound.
